@@ -8,6 +8,10 @@ ORDER_OVERRIDE = {
 }
 
 
+# classes with a step(CoreParams, CoreState) method that only dispatch to actions
+DISPATCHERS = {C + "ActionSequence"}
+
+
 def class_order(db, cls, seen=None):
     if cls in ORDER_OVERRIDE:
         return ORDER_OVERRIDE[cls]
@@ -48,7 +52,7 @@ def step_roots(db):
             if "optical" in ps[0]["ty"] or "optical" in ps[1]["ty"]:
                 continue
             cls = f.r.get("cls")
-            if not cls:
+            if not cls or cls in DISPATCHERS:
                 continue
             out.append((cls, class_order(db, cls), f))
     return out
